@@ -1,7 +1,9 @@
 use crate::report::{Ctx, Outcome};
 
 pub mod c01;
+pub mod c02;
 pub mod c03;
+pub mod c04;
 pub mod c05;
 pub mod c07;
 pub mod c12;
@@ -14,7 +16,9 @@ pub mod c20;
 pub fn dispatch(ctx: &Ctx) -> Option<Outcome> {
     Some(match ctx.id.as_str() {
         "C01" => c01::run(ctx),
+        "C02" => c02::run(ctx),
         "C03" => c03::run(ctx),
+        "C04" => c04::run(ctx),
         "C05" => c05::run(ctx),
         "C07" => c07::run(ctx),
         "C12" => c12::run(ctx),
